@@ -260,3 +260,11 @@ contract('C02', 'requantisation_formula_and_full_code_range', functions=[_C9.Q +
 # boundaries" depends on it for delayed antennas
 from . import c15 as _C15
 contract('C02', 'array_background_caches_survive_the_next_request', functions=[_C15.MA + '.get_samples', 'setigen.voltage.data_stream:DataStream._update_t'])(_C15.later_request_ownership)
+# every signal path (antenna, polarisation) owns its digitiser, filterbank and requantiser - including the requantiser's two component
+# quantisers, which hold the statistics caches: C14's constructor contract, discharged again here ("exactly the requantised PFB output of
+# that antenna and polarisation's stream" needs per-path statistics)
+from . import c14 as _C14
+contract('C02', 'every_signal_path_owns_its_pipeline_objects', functions=[BK + '.__init__'])(_C14.independent_tables)
+# "when quantiser statistics are taken from a common prefix": the estimate-once / every-p-th-call schedule of the quantisers (also for
+# non-positive periods) - C09's schedule contract, discharged again here
+contract('C02', 'quantiser_statistics_follow_the_configured_schedule', functions=[_C9.RQ + '.quantize', _C9.RQ + '._reset_cache'])(_C9.schedule)
